@@ -77,15 +77,17 @@ Fixpoint ser_bobs (m : bobs) : list Z :=
             end) bls
   end.
 
-(* checksum of a byte string.  Long observations travel as checksums (Coq reads
-   literals at ~30 KB/s and Z division is slow in the VM, so no modular hash):
-   the bytes are packed 24 at a time into integers e_1..e_n (with a leading 1)
-   and the checksum is [n; S0; S1; S2] with S0 = sum e_i, S1 = sum of the
-   prefix sums of e, S2 = sum of the prefix sums of S1 — exact integer sums, no
-   wrap-around.  Two different streams with equal checksums must differ in at
-   least four chunks in a coordinated way.  The harness computes the same
-   function on what the Go code answered; the hand corpus and the short cases
-   are compared exactly (ObsOk). *)
+(* checksum of a byte string.  Coq reads literals at ~10 KB/s and Z division is
+   slow in the VM, so generated cases do not carry every observation in full
+   nor a modular hash: all observations of a history (initial state and after
+   every step) are concatenated into ONE byte stream, which is packed 24 bytes
+   at a time into integers e_1..e_n (with a leading 1); the checksum is
+   [n; S0; S1; S2] with S0 = sum e_i, S1 = sum of the prefix sums of e,
+   S2 = sum of the prefix sums of S1 — exact integer sums, no wrap-around.
+   Two different streams with equal checksums must differ in at least four
+   chunks in a coordinated way.  The harness computes the same function on what
+   the Go code answered.  The hand corpus, replays and C12_FULL=1 runs use the
+   exact per-step form (ObsOk). *)
 Fixpoint chunk_go (bs : list Z) (acc cnt : Z) : list Z :=
   match bs with
   | [] => if cnt =? 0 then [] else [acc]
@@ -102,7 +104,7 @@ Definition fp (bs : list Z) : list Z :=
 
 Inductive ostep :=
 | ObsOk (toks : string) (o : oobs)    (* exact: token stream and reader answers *)
-| ObsFp (ftoks : list Z) (fobs : list Z)   (* checksums of enc_toks / ser_bobs *)
+| ObsSum                              (* no panic; the observation is part of the case's checksum *)
 | ObsPanic.
 
 Definition obs_matches (unesc : list Z -> option (list Z)) (s : state) (ob : ostep) : bool :=
@@ -110,10 +112,7 @@ Definition obs_matches (unesc : list Z -> option (list Z)) (s : state) (ob : ost
   | ObsOk toks oo =>
       zlist_eqb (enc_toks (file_tokens s)) (unhex toks)
       && match observe unesc (root s) with Ok m => obs_eqb m oo | _ => false end
-  | ObsFp ft fo =>
-      zlist_eqb (fp (enc_toks (file_tokens s))) ft
-      && match observe unesc (root s) with Ok m => zlist_eqb (fp (ser_bobs m)) fo | _ => false end
-  | ObsPanic => false
+  | _ => false
   end.
 
 Definition mk_unesc (tbl : list (string * option string)) (raw : list Z) : option (list Z) :=
@@ -123,7 +122,7 @@ Definition mk_unesc (tbl : list (string * option string)) (raw : list Z) : optio
   | None => None
   end.
 
-(* replay the history on the model, comparing after every step *)
+(* exact mode: replay the history on the model, comparing after every step *)
 Fixpoint check_steps (unesc : list Z -> option (list Z)) (s : state) (h : list (op * ostep)) : bool :=
   match h with
   | [] => true
@@ -135,21 +134,49 @@ Fixpoint check_steps (unesc : list Z -> option (list Z)) (s : state) (h : list (
       end
   end.
 
-(* the initial observation is part of the case too (step list may be empty) *)
+(* checksum mode: the bytes of all observations, in order *)
+Definition obs_bytes (unesc : list Z -> option (list Z)) (s : state) : option (list Z) :=
+  match observe unesc (root s) with
+  | Ok m => Some (enc_toks (file_tokens s) ++ 255 :: ser_bobs m ++ [254])
+  | _ => None
+  end.
+Fixpoint sum_steps (unesc : list Z -> option (list Z)) (s : state) (h : list (op * ostep)) : option (list Z) :=
+  match h with
+  | [] => Some []
+  | (o, ob) :: r =>
+      match step o s, ob with
+      | Panic, ObsPanic => match r with [] => Some [253] | _ => None end
+      | Ok s', ObsSum =>
+          match obs_bytes unesc s', sum_steps unesc s' r with
+          | Some a, Some b => Some (a ++ b)
+          | _, _ => None
+          end
+      | _, _ => None
+      end
+  end.
+
 Record tcase := mkCase {
   c_init : state;
   c_unesc : list (string * option string);
-  c_obs0 : ostep;
-  c_hist : list (op * ostep) }.
+  c_obs0 : ostep;                 (* observation of the initial state *)
+  c_hist : list (op * ostep);
+  c_sum : list Z }.               (* checksum mode: fp of all observations; [] in exact mode *)
 
 Definition check_tree_case (c : tcase) : bool :=
   let u := mk_unesc (c_unesc c) in
-  obs_matches u (c_init c) (c_obs0 c) && check_steps u (c_init c) (c_hist c).
+  match c_sum c with
+  | [] => obs_matches u (c_init c) (c_obs0 c) && check_steps u (c_init c) (c_hist c)
+  | ck =>
+      match c_obs0 c, obs_bytes u (c_init c), sum_steps u (c_init c) (c_hist c) with
+      | ObsSum, Some a, Some b => zlist_eqb (fp (a ++ b)) ck
+      | _, _, _ => false
+      end
+  end.
 
 Definition check_tree_cases (cs : list tcase) : list Z := failing check_tree_case cs.
 
-(* diagnosis helper: index of the first disagreeing step of a case (0 = initial
-   observation, k = k-th operation), -1 if none *)
+(* diagnosis helper (exact mode): index of the first disagreeing step of a case
+   (0 = initial observation, k = k-th operation), -1 if none *)
 Fixpoint first_bad_step (unesc : list Z -> option (list Z)) (s : state) (h : list (op * ostep)) (k : Z) : Z :=
   match h with
   | [] => -1
@@ -161,6 +188,6 @@ Fixpoint first_bad_step (unesc : list Z -> option (list Z)) (s : state) (h : lis
       end
   end.
 Definition first_bad (c : tcase) : Z :=
-  if check_tree_case (mkCase (c_init c) (c_unesc c) (c_obs0 c) []) then
+  if obs_matches (mk_unesc (c_unesc c)) (c_init c) (c_obs0 c) then
     first_bad_step (mk_unesc (c_unesc c)) (c_init c) (c_hist c) 1
   else 0.
